@@ -146,3 +146,127 @@ def gen_raw_registration(rng, tier):
 # Logger.write(dict) from one re-used dictionary, also before the first registration (statement only, no model evaluation)
 FAMILIES.append(Family("raw_registration", gen_raw_registration, _c12.impl_histories, None, None, _c12.oracle_histories,
                        _c12.nontrivial_histories, describe=_c12.describe_histories, shard=24, case_timeout=30))
+
+
+# ---- an enclosing action that belongs to ANOTHER logger (a MemoryLogger) while messages go through the default Logger ----
+def gen_foreign(rng, tier):
+    out = []
+    for _ in range(60 if tier == "quick" else 1000):
+        ops = []
+        for _ in range(rng.randrange(1, 7)):
+            r = rng.random()
+            if r < 0.35:
+                ops.append(["raw", rng.randrange(100)])                       # Logger().write({...})
+            elif r < 0.55:
+                ops.append(["raw_badser", rng.randrange(100)])                # Logger().write(dict, serializer that raises)
+            elif r < 0.75:
+                ops.append(["child", rng.choice(["ok", "ok", "bad_start", "bad_end"]), rng.randrange(100)])   # typed child action on the default logger
+            else:
+                ops.append(["log", rng.randrange(100)])                       # log_message: belongs to the enclosing action's logger
+        masks = [[rng.random() < 0.4 for _ in range(rng.randrange(1, 10))] for _ in range(rng.choice([1, 2]))]
+        out.append({"ops": ops, "masks": masks, "outer": rng.choice(["with", "context", "none"])})
+    return out
+
+
+def impl_foreign(case):
+    import eliot
+    from eliot import _output, MemoryLogger, Logger, start_action, log_message, MessageType, ActionType, Field
+
+    class Bad(Exception):
+        pass
+
+    def boom(v):
+        raise Bad("cannot serialize")
+    d = _output.Destinations()
+    _output.Logger._destinations = d
+    recs = []
+
+    def mk(mask):
+        got, fails = [], []
+
+        def dest(m):
+            n = len(got)
+            got.append(dict(m))
+            bad = mask[n % len(mask)] and m.get("message_type") != "eliot:destination_failure"
+            fails.append(bool(bad))
+            if bad:
+                raise ValueError("destination failed")
+        return dest, got, fails
+    for mask in case["masks"]:
+        dest, got, fails = mk(mask)
+        recs.append((got, fails))
+        d.add(dest)
+    ml = MemoryLogger()
+    BADMSG = MessageType("foreign:bad", [Field("x", boom, "")], "")
+    OKTYPE = ActionType("foreign:child", [Field("a", lambda v: v, "")], [Field("b", lambda v: v, "")], "")
+    BADSTART = ActionType("foreign:child_bs", [Field("a", boom, "")], [Field("b", lambda v: v, "")], "")
+    BADEND = ActionType("foreign:child_be", [Field("a", lambda v: v, "")], [Field("b", boom, "")], "")
+    raised = []
+
+    def body():
+        for o in case["ops"]:
+            try:
+                if o[0] == "raw":
+                    Logger().write({"message_type": "foreign:raw", "n": o[1]})
+                elif o[0] == "raw_badser":
+                    Logger().write({"message_type": "foreign:bad", "x": o[1]}, BADMSG._serializer)
+                elif o[0] == "child":
+                    T = {"ok": OKTYPE, "bad_start": BADSTART, "bad_end": BADEND}[o[1]]
+                    with T(a=o[2]) as act:
+                        act.add_success_fields(b=o[2])
+                else:
+                    log_message("foreign:inner", n=o[1])
+            except BaseException as e:
+                raised.append("%s:%s" % (o[0], type(e).__name__))
+    if case["outer"] == "with":
+        with start_action(ml, "foreign:outer"):
+            body()
+    elif case["outer"] == "context":
+        a = start_action(ml, "foreign:outer")
+        with a.context():
+            body()
+        a.finish()
+    else:
+        body()
+    return {"raised": raised,
+            "dests": [[[m.get("message_type") or m.get("action_type"), m.get("action_status")] for m in got] for got, _ in recs],
+            "fails": [f for _, f in recs],
+            "memory": [[m.get("message_type") or m.get("action_type"), m.get("action_status")] for m in ml.messages]}
+
+
+def oracle_foreign(case, obs):
+    if obs["raised"]:
+        return "a logging call raised: %r" % obs["raised"]
+    outer = case["outer"] != "none"
+    # what the default Logger is asked to write, in order (failed serializations are replaced by their two reports)
+    want = []
+    for o in case["ops"]:
+        if o[0] == "raw":
+            want.append(["foreign:raw", None])
+        elif o[0] == "raw_badser":
+            want += [["eliot:traceback", None], ["eliot:serialization_failure", None]]
+        elif o[0] == "child":
+            t = {"ok": "foreign:child", "bad_start": "foreign:child_bs", "bad_end": "foreign:child_be"}[o[1]]
+            want += [[t, "started"]] if o[1] != "bad_start" else [["eliot:traceback", None], ["eliot:serialization_failure", None]]
+            want += [[t, "succeeded"]] if o[1] != "bad_end" else [["eliot:traceback", None], ["eliot:serialization_failure", None]]
+        elif not outer:
+            want.append(["foreign:inner", None])
+    mem_want = ([["foreign:outer", "started"]] + [["foreign:inner", None] for o in case["ops"] if o[0] == "log"] + [["foreign:outer", "succeeded"]]) if outer else []
+    # tracebacks/serialization failures written while the enclosing action is current belong to the Logger whose write failed
+    for i, (got, fails) in enumerate(zip(obs["dests"], obs["fails"])):
+        plain = [m for m in got if m[0] != "eliot:destination_failure"]
+        if plain != want:
+            return ("destination %d was offered %r; the default Logger was asked to write (reports of failed serializations "
+                    "included) %r" % (i, plain, want))
+    n_fail = sum(1 for fs in obs["fails"] for f in fs if f)
+    for i, got in enumerate(obs["dests"]):
+        n_rep = sum(1 for m in got if m[0] == "eliot:destination_failure")
+        if n_rep != n_fail:
+            return "%d destination failures but destination %d was offered %d eliot:destination_failure reports" % (n_fail, i, n_rep)
+    if obs["memory"] != mem_want:
+        return "the enclosing action's MemoryLogger holds %r, expected only its own messages %r" % (obs["memory"], mem_want)
+    return None
+
+
+FAMILIES.append(Family("foreign_logger", gen_foreign, impl_foreign, None, None, oracle_foreign,
+                       lambda case, obs: json.dumps(case) if case["outer"] != "none" else None, shard=30, case_timeout=30))
